@@ -44,6 +44,65 @@ class _SmallUuidModule:
         mod.mx = mx
 
 
+def _observe_alphabet(su):
+    """the 57 letters as the public interface shows them: the first character of the encoding of k is digit k (least
+    significant digit first).  Everything the driver says about digits is relative to this observation; whether the
+    encoding is positional, 22 characters long and injective is what the spec judges."""
+    alpha = []
+    for k in range(57):
+        outc, s = _call(su.uuid_to_short_str, real_uuid.UUID(int=k))
+        alpha.append(s[0] if (outc == 'ok' and isinstance(s, str) and s) else None)
+    good = [a for a in alpha if a is not None]
+    if len(set(good)) != 57:
+        # not 57 distinct letters: replace what is unusable by private-use characters so that the judge sees foreign digits
+        seen, out = set(), []
+        for k, a in enumerate(alpha):
+            if a is None or a in seen:
+                a = chr(0xE000 + k)
+            seen.add(a)
+            out.append(a)
+        alpha = out
+    su._ALPHABET_ORIG = list(alpha)
+    su._INDEX_ALPHABET_ORIG = dict((c, i) for i, c in enumerate(alpha))
+    return alpha
+
+
+def _calibration(su):
+    """the scaled-down instances patch module constants: that is only meaningful while the module has the shape the
+    I-level model assumes.  -> None when it has, else the reason (the instances are skipped then, no verdict)"""
+    import inspect
+    allowed = {'_ALPHABET', '_INDEX_ALPHABET', '_SHORT_GUID_LEN', 'uuid'}
+    g = vars(su)
+    for n in ('_ALPHABET', '_SHORT_GUID_LEN', 'uuid'):
+        if n not in g:
+            return 'module has no %s' % n
+    if list(g['_ALPHABET']) != list(su._ALPHABET_ORIG) or g['_SHORT_GUID_LEN'] != 22 or g['uuid'] is not real_uuid:
+        return 'module constants differ from what the public interface shows'
+    if '_INDEX_ALPHABET' in g and g['_INDEX_ALPHABET'] != su._INDEX_ALPHABET_ORIG:
+        return '_INDEX_ALPHABET is not the index of _ALPHABET'
+    own = {n: v for n, v in g.items() if not n.startswith('__')}
+    for n, v in own.items():
+        if inspect.isclass(v) and getattr(v, '__module__', None) == su.__name__:
+            return 'module defines the class %s' % n
+
+    def names(code):
+        out = set(code.co_names)
+        for c in code.co_consts:
+            if inspect.iscode(c):
+                out |= names(c)
+        return out
+    for n, v in own.items():
+        if inspect.isfunction(v) and v.__module__ == su.__name__:
+            for ref in names(v.__code__):
+                if ref in own and ref not in allowed and not (inspect.isfunction(own[ref]) and own[ref].__module__ == su.__name__) \
+                        and not inspect.ismodule(own[ref]):
+                    return 'function %s reads the module global %s' % (n, ref)
+        elif not inspect.isfunction(v) and not inspect.ismodule(v) and n not in allowed and not n.endswith('_ORIG') and n != '_ALPHA_IS_STR':
+            if callable(v):
+                return 'module global %s is a callable object' % n
+    return None
+
+
 def _patched(su, base, ln, mx):
     alpha = su._ALPHABET_ORIG[:base]
     su._ALPHABET = ''.join(alpha) if su._ALPHA_IS_STR else list(alpha)
@@ -272,9 +331,9 @@ def _judge(ctx, cases):
 
 def run(ctx):
     from ak import short_uuid as su
-    su._ALPHA_IS_STR = isinstance(su._ALPHABET, str)
-    su._ALPHABET_ORIG = list(su._ALPHABET)
-    su._INDEX_ALPHABET_ORIG = dict((c, i) for i, c in enumerate(su._ALPHABET_ORIG))
+    _observe_alphabet(su)
+    why_not = _calibration(su)
+    su._ALPHA_IS_STR = isinstance(getattr(su, '_ALPHABET', None), str)
     ctx.assumptions += [
         'TLC (tla2tools 1.8) evaluates the specs correctly',
         'real-size UUIDs are covered by boundary-directed and seeded random samples, not exhaustively',
@@ -286,7 +345,12 @@ def run(ctx):
             'INIT Init\nNEXT Next\nCHECK_DEADLOCK FALSE\nCONSTANTS\n  LB = 4\n  N = 3\n  D = 7\n'
             'INVARIANT DivOK\nINVARIANT MulOK\nINVARIANT LessOK\n', workers=8, timeout=600)
     # 2. scaled-down instances, exhaustive, spec -> code
-    n_small = _small(ctx, su)
+    if why_not is None:
+        n_small = _small(ctx, su)
+    else:
+        n_small = 0
+        ctx.note_drift('ak.short_uuid no longer has the shape the scaled-down instances assume (%s): they are skipped, the real-size checks decide' % why_not)
+    ctx.extra['scaled_instances_calibration'] = why_not or 'ok'
     # 3. real constants, code -> spec
     n_rand = 300 if ctx.quick else 20000
     nums = _big_inputs(ctx, su, n_rand)
@@ -336,11 +400,12 @@ def run(ctx):
 
 def replay(ctx, case):
     from ak import short_uuid as su
-    su._ALPHA_IS_STR = isinstance(su._ALPHABET, str)
-    su._ALPHABET_ORIG = list(su._ALPHABET)
-    su._INDEX_ALPHABET_ORIG = dict((c, i) for i, c in enumerate(su._ALPHABET_ORIG))
+    _observe_alphabet(su)
+    su._ALPHA_IS_STR = isinstance(getattr(su, '_ALPHABET', None), str)
     k = case['kind']
     if k in ('small-enc', 'small-dec'):
+        if _calibration(su) is not None:
+            return None          # the module no longer has the shape the scaled-down instances assume: no verdict
         base, ln, mx = case['instance']
         alpha = _patched(su, base, ln, mx)
         try:
